@@ -49,6 +49,15 @@ class ProgErrorB(ProgError):
     pass
 
 
+class ProgErrorZ(ProgError):
+    """A falsy exception object (a collection-like error that reports no items)."""
+    def __bool__(self):
+        return False
+
+    def __len__(self):
+        return 0
+
+
 class ProgKeyError(KeyError):
     def __init__(self, serial, tag=""):
         super().__init__(serial, tag)
@@ -77,7 +86,7 @@ class ProgKeyboardInterrupt(KeyboardInterrupt):
         self.tag = tag
 
 
-PROG_TYPES = {"E": ProgError, "A": ProgErrorA, "B": ProgErrorB, "K": ProgKeyError,
+PROG_TYPES = {"E": ProgError, "A": ProgErrorA, "B": ProgErrorB, "Z": ProgErrorZ, "K": ProgKeyError,
               "assert": AssertionError, "exit": SystemExit, "kbd": KeyboardInterrupt,
               "assert_sub": ProgAssertion, "exit_sub": ProgSystemExit,
               "kbd_sub": ProgKeyboardInterrupt}
@@ -132,6 +141,7 @@ class World:
         self.serial = 0
         self.junk = []
         self.conds = {}        # shared condition objects by name
+        self.held = {}         # (actor, name) -> condition object kept in a "variable"
         self.seam = seam if seam is not None else Seam(
             plan=self.plan, inject=self.inject, record=record_kernel,
             same_time_cap=self.config.get("same_time_cap"),
@@ -243,6 +253,14 @@ class World:
             return CMP[expr["op"]](self.res[expr["res"]], dict(expr["amounts"]))
         if k == "time":
             date = self.num(expr["t"])
+            if self.scenario.get("share_conditions"):
+                # the same object as the one awaited by `at` ops for this (comparison, date)
+                cond = SHARED_CONDITIONS.get((expr["op"], date))
+                if cond is None:
+                    cond = SHARED_CONDITIONS[(expr["op"], date)] = \
+                        (time == date) if expr["op"] == "==" else (time >= date) \
+                        if expr["op"] == ">=" else (time < date)
+                return cond
             if expr["op"] == ">=":
                 return time >= date
             if expr["op"] == "==":
@@ -561,9 +579,24 @@ class World:
         await (tracked + op["by"])
         self.log(a, "tr_add-", op["on"], tracked.value)
 
+    async def op_hold(self, a, op):
+        """c = <condition expression>: build it, look at it (`if c:`), keep it in a variable"""
+        cond = self.build(op["x"])
+        self.held[(a, op["as"])] = cond
+        self.log(a, "hold", op["as"], bool(cond))
+
+    async def op_drop(self, a, op):
+        """del c.  Under config "retain" the object stays referenced from elsewhere (an
+        unrelated reference: the memory layout differs, the program does not)."""
+        cond = self.held.pop((a, op["as"]), None)
+        if cond is not None and self.config.get("retain"):
+            self.junk.append(cond)
+
     async def op_wait(self, a, op):
         """await <condition expression>"""
         cond = self.build(op["x"])
+        if self.config.get("retain"):
+            self.junk.append(cond)
         self.log(a, "wait+", op.get("id"), bool(cond), self.truth(op["x"]))
         try:
             await cond
@@ -1040,6 +1073,7 @@ def cleanup(record, collect_every=16):
         world.res.clear()
         world.scopes.clear()
         world.conds.clear()
+        world.held.clear()
         world.junk.clear()
     sys.unraisablehook = _silent_hook
     try:
